@@ -109,3 +109,187 @@ def enumerate_docs(nnames: int, kinds_no_t=None, kinds_t=None, emit: bool = True
         return [one(0)]
     with ThreadPoolExecutor(max_workers=min(parts, 14)) as ex:
         return list(ex.map(one, range(parts)))
+
+
+# ---------------------------------------------------------------------------------------------- code -> spec (hook traces)
+PFX = "/components/schemas/"
+
+
+def _strip(n: str) -> str:
+    return n[len(PFX):] if n.startswith(PFX) else n
+
+
+def record_trace(doc: dict, adoc: list[dict] | None, tid: int, tmpfile) -> tuple[list[dict], str | None]:
+    """Run the real parser with the hooks on; return normalised events (first = the abstract document)."""
+    import os
+
+    from .common import GUARD
+
+    names = list((doc.get("components") or {}).get("schemas") or {}) if isinstance(doc, dict) else []
+    if adoc is None:
+        adoc = [{"name": n, "k": "opaque", "t": ""} for n in names]
+    kinds = {s["name"]: s["k"] for s in adoc}
+    known = all(k != "opaque" for k in kinds.values())
+    open(tmpfile, "w").close()
+    os.environ[GUARD] = str(tmpfile)
+    try:
+        _, exc = gen.parse(doc)
+    finally:
+        os.environ.pop(GUARD, None)
+    raw = [json.loads(x) for x in open(tmpfile, encoding="utf-8") if x.strip()]
+
+    def cls_tag(c: str):
+        if known and c in kinds:
+            return ["m" if kinds[c] in MODEL_KINDS else "e", c]
+        if known and c.endswith("I") and c[:-1] in kinds:
+            return ["i", c[:-1]]
+        return ["x", c]
+
+    def root_tag(r: str):
+        if r.startswith(PFX):
+            return ["ref", _strip(r)]
+        if known and r in kinds:
+            return ["cls", r]
+        if known and r.endswith("I") and r[:-1] in kinds:
+            return ["icls", r[:-1]]
+        return ["cls", r]
+
+    out = [{"tid": tid, "ev": "doc", "doc": adoc}]
+    for e in raw:
+        ev = e["ev"]
+        if ev == "create_try":
+            o = {"tid": tid, "ev": ev, "name": e["name"], "outcome": e["outcome"]}
+            if e["outcome"] == "ok":
+                o.update(by_ref=[_strip(x) for x in e["by_ref"]], cls=[cls_tag(c) for c in e["by_name"]],
+                         to_proc=[_strip(x) for x in e["to_process"]])
+            out.append(o)
+        elif ev in ("create_round", "process_round"):
+            out.append({"tid": tid, "ev": ev, "progress": e["progress"], "remaining": [_strip(x) for x in e["remaining"]]})
+        elif ev == "process_try":
+            o = {"tid": tid, "ev": ev, "name": _strip(e["name"]), "outcome": e["outcome"]}
+            if e["outcome"] == "ok":
+                o["cls"] = [cls_tag(c) for c in e["by_name"]]
+            out.append(o)
+        elif ev == "dep":
+            out.append({"tid": tid, "ev": ev, "ref": _strip(e["ref"]), "roots": [root_tag(r) for r in e["roots"]]})
+        elif ev == "remove_begin":
+            out.append({"tid": tid, "ev": ev, "failed": [{"name": _strip(f["name"]), "roots": [root_tag(r) for r in f["roots"]]}
+                                                          for f in e["failed"]]})
+        elif ev == "remove":
+            out.append({"tid": tid, "ev": ev, "kind": e["kind"], "root": root_tag(e["root"]) if e["kind"] == "ref" else ["cls", e["root"]]})
+        elif ev == "schemas_done":
+            out.append({"tid": tid, "ev": ev, "by_ref": [_strip(x) for x in e["by_ref"]], "cls": [cls_tag(c) for c in e["by_name"]]})
+        # events of other engines (fs, op, ...) are not part of this trace
+    return out, exc
+
+
+def validate_traces(events: list[dict], scratch_dir, timeout: int = 1800):
+    """Batch-validate normalised traces with PipelineTrace.tla.  Returns the verdict dict printed by the POSTCONDITION."""
+    path = scratch_dir / "pipeline.ndjson"
+    path.write_text("\n".join(json.dumps(e) for e in events) + "\n")
+    cfg = tlc.write_cfg(scratch_dir / "ptrace.cfg", {"Names": {"Alpha"}, "Dangling": DANGLING}, spec="TSpec", post="Post")
+    res = tlc.run_tlc("PipelineTrace.tla", cfg, workers=1, env={"TRACE_FILE": str(path)}, timeout=timeout)
+    post = [p for p in res.printed if isinstance(p, dict) and "rejected" in p]
+    if not post:
+        raise tlc.TlcFailure("PipelineTrace produced no verdict:\n" + res.out[-3000:])
+    v = post[0]
+    if v["consumed"] != len(events):
+        raise tlc.TlcFailure(f"PipelineTrace consumed {v['consumed']} of {len(events)} lines:\n" + res.out[-2000:])
+    return v, res
+
+
+# ---------------------------------------------------------------------------------------------- shared decision helpers
+def repaired(adoc: list[dict], bad: list[str]) -> dict:
+    """The document with every bad schema replaced by its good twin (kinds with a dedicated twin) or a plain object."""
+    schemas = {}
+    for s in adoc:
+        if s["name"] in bad:
+            if s["k"] in ("arrnoitems", "enummixed", "objbadprop", "objbaddef"):
+                schemas[s["name"]] = concretize_shape(s["k"], s["t"], good_twin=True)
+            else:
+                schemas[s["name"]] = concretize_shape("obj", "")
+        else:
+            schemas[s["name"]] = concretize_shape(s["k"], s["t"])
+    return gen.mkdoc(schemas=schemas)
+
+
+def has_class(k: str) -> bool:
+    return k in MODEL_KINDS or k == "enum"
+
+
+def sig(adoc: list[dict]) -> str:
+    return "+".join(sorted({s["k"] for s in adoc}))
+
+
+def run_universe(rep, nnames: int, d, kinds_no_t=None, kinds_t=None) -> list[dict]:
+    """TLC over the universe (laws + emission); returns emitted cases. Law violations on the MODEL are machinery-visible notes."""
+    rs = enumerate_docs(nnames, kinds_no_t, kinds_t, scratch_dir=d)
+    cases = []
+    for r in rs:
+        rep.tlc(r)
+        if r.violated:
+            rep.notes.append(f"TLC: law {sorted(set(r.violated))} violated on the model: {r.counterexample[:500]}")
+            rep.extra.setdefault("tlc_law_violations", []).extend(sorted(set(r.violated)))
+        cases += r.printed
+    if len(cases) < 100:
+        raise tlc.TlcFailure("pipeline universe emitted too few documents")
+    return cases
+
+
+def compare_model(rep, c: dict, pr: dict) -> None:
+    if sorted(c["gen"]) != pr["gen"] or sorted(c["errs"]) != pr["diagnosed"] or sorted(c["inl"]) != sorted(x[:-1] for x in pr["inline"]):
+        rep.drifted(mode="pipeline", doc=[(s["k"], s["t"]) for s in c["doc"]], model=[c["gen"], c["errs"], c["inl"]],
+                    real=[pr["gen"], pr["diagnosed"], pr["inline"]])
+
+
+def random_adocs(rnd, n: int, sizes=(3, 4, 5)) -> list[list[dict]]:
+    out = []
+    all_names = NAMES + ["Epsilon"]
+    for _ in range(n):
+        k = rnd.choice(sizes)
+        names = all_names[:k]
+        adoc = []
+        for nm in names:
+            kind = rnd.choice(KINDS_NO_T + KINDS_T + ["obj", "objref", "objref", "allof"])
+            t = ""
+            if kind in KINDS_T:
+                t = rnd.choice(names + [DANGLING]) if rnd.random() < 0.9 else DANGLING
+            adoc.append({"name": nm, "k": kind, "t": t})
+        out.append(adoc)
+    return out
+
+
+def trace_batch(rep, docs: list[tuple[dict, list[dict] | None]], d, prop: str, law_key) -> None:
+    """Record hook traces for (doc, adoc) pairs, validate them with PipelineTrace.tla, turn verdicts into drift/violations."""
+    events = []
+    by_tid = {}
+    for tid, (doc, adoc) in enumerate(docs, start=1):
+        ev, exc = record_trace(doc, adoc, tid, d / "raw.ndjson")
+        by_tid[tid] = (doc, adoc, exc)
+        events += ev
+    # binding self-test: a trace with one event dropped and one with a corrupted final state must be flagged
+    base = [dict(e) for e in events if e["tid"] == 1]
+    t1 = [dict(e, tid=900001) for i, e in enumerate(base) if not (e["ev"] == "create_round" and i < 8)]
+    t2 = [dict(e, tid=900002) for e in base]
+    for e in t2:
+        if e["ev"] == "schemas_done":
+            e["by_ref"] = list(e["by_ref"]) + ["Ghost"]
+    events += t1 + t2
+    events.append({"tid": 900003, "ev": "doc", "doc": []})   # closes the last trace
+    v, res = validate_traces(events, d)
+    rep.tlc(res)
+    flagged = {x[0] for x in v["rejected"]} | {x[0] for x in v["law"]}
+    if 900001 not in flagged or 900002 not in flagged:
+        raise tlc.TlcFailure(f"binding self-test failed: corrupted traces were accepted by PipelineTrace ({v})")
+    rep.traces += len(docs)
+    for tid, line, why in v["drift"]:
+        if tid < 900000:
+            rep.drifted(mode="trace", why=why, doc=by_tid[tid][1])
+    for tid, line, why in v["law"] + v["rejected"]:
+        if tid < 900000:
+            doc, adoc, exc = by_tid[tid]
+            key = law_key(why, adoc)
+            if key:
+                rep.violate(key, f"trace of the real pipeline breaks a law of Pipeline.tla: {why}", why=why, adoc=adoc, doc=doc,
+                            line=line, exc=exc)
+    rep.extra["trace_events"] = len(events)
